@@ -62,6 +62,31 @@ def prefixOutcomes (d0 : Disk) (as : List Action) : String :=
     | a :: rest => showRecover d :: go (d.apply a) rest
   "#".intercalate (go d0 as)
 
+/-- what strict recovery reads of a directory: the MANIFEST, the segments it lists, the snapshot it
+    points to (the `SameReferenced` view of `Lemmas/PowerLoss.lean`) -/
+def viewOf (d : Disk) : String :=
+  match d.manifest with
+  | none => "none"
+  | some m =>
+    let segs := m.segs.map fun n =>
+      match alookup n d.wals with
+      | some w => s!"{n}:{".".intercalate (w.entries.map fun e => s!"{e.seq}{showWOp e.op}{e.id}")}"
+      | none => s!"{n}:missing"
+    let snap := match m.snap with
+      | none => "-"
+      | some n =>
+        match alookup n d.snaps with
+        | some (some sf) => s!"{n}:{sf.lastSeq}.{sf.docs.length}"
+        | _ => s!"{n}:missing"
+    s!"M({showOpt m.snap}/{showOpt m.snapSeq}/{showNatList m.segs})|{";".intercalate segs}|{snap}"
+
+/-- the referenced view after each action prefix, distinct ones in order -/
+def prefixViews (d0 : Disk) (as : List Action) : String :=
+  let rec go (d : Disk) : List Action → List String
+    | [] => [viewOf d]
+    | a :: rest => viewOf d :: go (d.apply a) rest
+  "#".intercalate ((go d0 as).foldl (fun acc v => if acc.contains v then acc else acc ++ [v]) [])
+
 def showAct : Action → String
   | .walCreate n => s!"walCreate:{n}"
   | .walAppend n e => s!"walAppend:{n}:{e.seq}{showWOp e.op}{e.id}"
@@ -216,7 +241,7 @@ def showOut : POut → String
 def finish (s : St) (r : PEng × List Action × POut) : Option St × String :=
   let (e, as, out) := r
   (some { s with eng := e, disk := s.disk.applyAll as },
-   s!"{showOut out} acts={";".intercalate (as.map showAct)} rec={prefixOutcomes s.disk as}")
+   s!"{showOut out} acts={";".intercalate (as.map showAct)} rec={prefixOutcomes s.disk as} views={prefixViews s.disk as}")
 
 def step (st : Option St) (line : String) : Option St × String :=
   let (op, fs) := splitFields line
@@ -226,7 +251,7 @@ def step (st : Option St) (line : String) : Option St × String :=
     | some cap, some snap, some rot =>
       let (e, as) := pInit ⟨snap, rot, cap⟩
       (some { eng := e, disk := emptyDisk.applyAll as, nums := [] },
-        s!"ok acts={";".intercalate (as.map showAct)} rec={prefixOutcomes emptyDisk as}")
+        s!"ok acts={";".intercalate (as.map showAct)} rec={prefixOutcomes emptyDisk as} views={prefixViews emptyDisk as}")
     | _, _, _ => (st, "bad-op")
   | _, none => (none, "bad-op:no-cfg")
   | _, some s0 =>
@@ -285,7 +310,7 @@ def step (st : Option St) (line : String) : Option St × String :=
       match pRestart s.eng.cfg s.eng.nextName s.disk with
       | .ok (e, as) =>
         (some { s with eng := e, disk := s.disk.applyAll as, down := false },
-          s!"ok acts={";".intercalate (as.map showAct)} rec={prefixOutcomes s.disk as}")
+          s!"ok acts={";".intercalate (as.map showAct)} rec={prefixOutcomes s.disk as} views={prefixViews s.disk as}")
       | .error e => (some { s with down := true }, showRecErr e)
     | "sweep" =>
       match field? fs "faults" with
